@@ -112,6 +112,10 @@ func init() {
 		Assumptions: append([]string{"reuse of an expired external port is left open", "a mapping created by a datagram to an unbound remote port has an unobserved external address; while such a mapping may be live, 'no mapping owns this address' is not asserted"}, stdAssume...), Rule: natRule})
 	def("C03", &propCfg{Dir: "c02", Pkgs: natPkgs, Components: []string{"real: vnet routers, NAT, hosts, sockets (router goroutines are workers)", "oracle: reference NAT model (permissions per mapping under the filtering behaviour); refused datagrams are ignored by the model, so any side effect shows up as a later disagreement"},
 		Assumptions: append([]string{"reuse of an expired external port is left open", "a mapping created by a datagram to an unbound remote port has an unobserved external address; while such a mapping may be live, 'no mapping owns this address' is not asserted"}, stdAssume...), Rule: natRule})
+	def("C01", &propCfg{Pkgs: []string{"vnet", "deadline"},
+		Components: []string{"real: vnet routers (one forwarding goroutine each, a worker), NATs of every mode, hosts, sockets, chunk queues; nothing in vnet is stubbed", "oracle: reference routing model (routing-table walk per hop, host demultiplexing with wildcard and connected-socket rules, composed NAT chain identity for source consistency, per-level permission sets for inbound admission)"},
+		Assumptions: append([]string{"NAT lifetimes are longer than the run (expiry is C02/C03's subject)", "datagrams to a NAT router's own external address are judged only in phase 2, from sockets on the network that observed the address", "in runs with router stop/start, a bounded queue or a dropping chunk filter 'no loss' is not asserted (integrity, at-most-once, only-its-socket, order and source still are)", "datagrams shorter than 12 bytes carry no tag: they are checked for 'arrives only where such a datagram was sent', not for loss or duplication"}, stdAssume...),
+		Rule: "topologies: root + 1-4 (thorough: 1-7) LAN routers nested to depth 3 with random NAT type (3x3 NAPT or 1:1), MinDelay/MaxJitter/QueueSize/chunk filter options; 1-2 hosts per router with automatic/one/two addresses; specific, wildcard and Dial-connected sockets; 3-120 datagrams of 0..1500 bytes from concurrent senders to bound sockets, unbound ports, unroutable and unheld addresses and loopback; then replies and unsolicited datagrams to observed translated sources; fault class: router stop/start during traffic. Non-trivial: >=2 workers and >=1 context switch; distinct = schedule hash"})
 	def("C09", &propCfg{
 		Components:  []string{"real: deadline.Deadline over simrt.Timer (AfterFunc callbacks are workers parked at their entry, so a dispatched-but-unrun callback can be overtaken by further Set calls)", "stub: none"},
 		Assumptions: stdAssume,
